@@ -573,7 +573,30 @@ def check_C02(tier, seed):
                                "harness renderer and comparator trusted"])
 
 
-CHECKS = {"C02": check_C02, "C07": check_C07, "C20": check_C20, "C15": check_C15, "C13": check_C13, "C12": check_C12, "C08": check_C08, "C01": check_C01, "C04": check_C04, "C06": check_C06}
+def check_C18(tier, seed):
+    import gen18
+    t0 = time.time()
+    quick = tier == "quick"
+    st0 = tlc_mc("C18", "MC_C01.tla", "MC_C18_%s.cfg" % tier, timeout=3000)
+    leak = gen18.leak_sessions(25 if quick else 400)
+    st1 = validate_sessions("C18", "leak", leak, timeout=3000, exhaustive=True)
+    stages = [st0, st1]
+    if not quick:
+        stages.append(validate_sessions("C18", "leaklong", gen18.leak_sessions(3000, prefix="C18x")[::7], timeout=6000))
+    lim = gen18.limit_sessions()
+    stages.append(validate_sessions("C18", "limits", lim, timeout=6000, chunk=1))
+    return finish("C18", tier, seed, "model_checking", stages, t0,
+                  rule="(1) TLC checks StmtNeutral (frames change only through FOR / NEXT / GOSUB / RETURN / ON..GOSUB / RUN / "
+                       "CLEAR / errors) and PoolBounded on the abstract machine for every program of the bounded grammar with a "
+                       "small pool; (2) every statement kind (35 templates) is executed N times in a GOTO loop, in a FOR loop "
+                       "and in a subroutine, then STOP exposes the interpreter's stack: the probe must show exactly the "
+                       "specified frames, zero stray stack values and no slot for variables set back to 0 / \"\"; (3) each "
+                       "pool (GOSUB recursion, abandoned FOR frames, FN recursion, ON..GOSUB recursion) is driven past the "
+                       "real limit of 65535: OUT OF MEMORY is specified and the session must remain usable",
+                  assumptions=ASSUME_SESS + ["the variable, DATA and code pools are driven to their limit only in the thorough tier"])
+
+
+CHECKS = {"C18": check_C18, "C02": check_C02, "C07": check_C07, "C20": check_C20, "C15": check_C15, "C13": check_C13, "C12": check_C12, "C08": check_C08, "C01": check_C01, "C04": check_C04, "C06": check_C06}
 for _p in ("C09", "C10", "C11", "C17"):
     CHECKS[_p] = prog_check(_p)
 
